@@ -16,6 +16,8 @@ use crate::tree::type_annotation::{TargetInfoClass, TargetInfoCode, TargetInfoFi
 
 mod pool;
 mod labels;
+#[cfg(feature = "verif")]
+pub mod verif;
 
 // TODO: eventually make a "writer" that's like a visitor but keeps internal state to do this writing job without using any tree:: components...
 
